@@ -467,6 +467,30 @@ pub fn a4_std_models(c: &StrCase) -> Outcome {
     if s.len() != b.len() || s.is_empty() != (s.chars().count() == 0) {
         return Err(format!("len / is_empty of {:?}", s));
     }
+    // --- Cow<str>: `+=` and to_mut().push_str (u11: vx_cow_add_assign, vx_cow_to_mut_push_str): bytes and borrowedness
+    {
+        use std::borrow::Cow;
+        let is_b = |c: &Cow<'_, str>| matches!(c, Cow::Borrowed(_));
+        let half = s.len() / 2;
+        let cut = (0..=half).rev().find(|&i| s.is_char_boundary(i)).unwrap_or(0);
+        let (l, r) = s.split_at(cut);
+        for lhs in [Cow::Borrowed(l), Cow::Owned(l.to_string())] {
+            let mut c = lhs.clone();
+            c += r;
+            let want_borrowed = if l.is_empty() { true } else if r.is_empty() { is_b(&lhs) } else { false };
+            if c.as_ref() != s || is_b(&c) != want_borrowed {
+                return Err(format!("Cow += : {:?} += {:?} gives {:?} (borrowed: {}), the model says borrowed: {}", lhs, r, c, is_b(&c), want_borrowed));
+            }
+            let mut d = lhs.clone();
+            d.to_mut().push_str(r);
+            if d.as_ref() != s || is_b(&d) {
+                return Err(format!("Cow::to_mut().push_str: {:?} + {:?} gives {:?} (borrowed: {})", lhs, r, d, is_b(&d)));
+            }
+        }
+        if !is_b(&Cow::from(s)) || is_b(&Cow::<str>::Owned(s.to_string())) {
+            return Err("Cow::from(&str) / Cow::Owned".into());
+        }
+    }
     // --- once: the byte/char classifiers of std_more.vrs on their whole domain
     if c.text.is_empty() {
         for x in 0u8..=255 {
